@@ -191,6 +191,14 @@ func drawSuite(t *rapid.T) suiteSpec {
 			}
 			name = string(b)
 		}
+		if rapid.IntRange(0, 3).Draw(t, "permuteTokens") == 0 {
+			// the data-input tokens in another order (QN08-C, T1M-PSHA1-QN08): not the RFC's order, but if the parser takes the
+			// string, the message is still assembled in the one order the statement gives, after the string as given
+			i := strings.LastIndexByte(name, ':')
+			toks := strings.Split(name[i+1:], "-")
+			perm := rapid.Permutation(toks).Draw(t, "tokenOrder")
+			name = name[:i+1] + strings.Join(perm, "-")
+		}
 		return suiteSpec{Via: "parsed", Name: name}
 	default:
 		sp := suiteSpec{Via: rapid.SampledFrom([]string{"config", "rawsuite", "newsuite", "mutated"}).Draw(t, "via"), Cfg: drawUsableCfg(t)}
